@@ -95,6 +95,11 @@ def run(chk, binary):
         text = rng.choice(TEXTS)
         chain = gen_chain(rng, text)
         start = rng.randint(0, max(0, len(text) - 1))
+        if rng.random() < 0.12:
+            # an edit first, one that moves character boundaries but keeps the length in bytes: the search works on the text as it then is
+            text = rng.choice(["é foo\nxb ab\n", "ü1 é2 ab foo\n", "日本 ab 語 foo\nbar 日\n"])
+            chain = [rng.choice([":s/é/ab/<CR>", ":s/ü/xy/<CR>", ":s/日/abc/<CR>", ":%s/é/ab/g<CR>", "rx", "~"])] + gen_chain(rng, text)
+            start = 0
         reqs.append({"op": "keys", "text": text, "cursor": start, "keys": chain})
         meta.append((text, chain, start))
     ans = server_map(binary, reqs)
@@ -110,9 +115,12 @@ def run(chk, binary):
             continue
         last_pat, last_dir = None, True
         prev = a["init"]
+        text0 = text
         for k, st in zip(chain, steps):
             cmds = [c for c in st["cmds"] if c.get("motion") and any(c["motion"].startswith(x) for x in ("PatternSearch", "NextMatch", "PrevMatch"))]
-            if st["buf"] != text:
+            text = prev["buf"] if "buf" in prev else text0          # the text the command works on
+            is_search_key = bool(re.match(r"^[vV]?[/?]", k)) or k.lstrip("0123456789") in ("n", "N")
+            if is_search_key and st["buf"] != text:
                 chk.violation("spec:a search edited the text", dict(case0, at=k, buffer=st["buf"]))
                 break
             typed = re.match(r"^[vV]?([/?])(.*?)(?:<CR>)?$", k, re.S)
@@ -202,6 +210,11 @@ def run(chk, binary):
     # patterns with backslashes, typed on the command line, on the text that has quotes with and without one
     for text in [t for t in TEXTS if '\\"' in t or "\\" in t]:
         for pat in [p_ for p_ in PATTERNS if "\\" in p_ or '"' in p_]:
+            jobs.append({"args": ["--json", "-c", "/" + pat + "<CR>"], "stdin": text})
+            jm.append((text, pat))
+    # a field that reaches the very last character of a text without a final newline, multi-byte characters before it
+    for text in ["äb cd\nöx yb", "日本 foo", "é x é", "ab\nüb"]:
+        for pat in ["b", "foo", "é", "o", "yb"]:
             jobs.append({"args": ["--json", "-c", "/" + pat + "<CR>"], "stdin": text})
             jm.append((text, pat))
     for (text, pat), r in zip(jm, cli_map(binary, jobs)):
